@@ -642,6 +642,82 @@ def forced_f9(ac):
             'cache_keys_after': len(keys_after), 'complete': complete}
 
 
+# ---------------------------------------------------------------- two threads inside the fuse-info computation at once
+_PAUSE = {'armed': False, 'at': 0, 'count': 0, 'paused': None, 'resume': None}
+
+
+def _pausing_symmetry():
+    """a U1 symmetry object (a legal `symmetry=` argument) whose `combine` parks the thread named 'T1' at its
+    k-th call while armed: the other thread then runs a whole fuse-info computation in the meantime"""
+    import threading
+    from symmray.symmetries import U1
+
+    class PausingU1(U1):
+        __slots__ = ()
+
+        def combine(self, *charges):
+            if _PAUSE['armed'] and threading.current_thread().name == 'T1':
+                _PAUSE['count'] += 1
+                if _PAUSE['count'] == _PAUSE['at']:
+                    _PAUSE['paused'].set()
+                    _PAUSE['resume'].wait(5.0)
+            return U1.combine(self, *charges)
+
+        def __reduce__(self):               # picklable (the cache key pickles the symmetry): as a plain U1
+            return (U1, ())
+    return PausingU1()
+
+
+def forced_info_interleaving(ac, rng):
+    """-> None or a finding: T1 is parked in the middle of calc_fuse_block_info (cache disabled, so every call computes),
+    T2 fuses a near-identical array with the same groups meanwhile; both results must be the sequential ones"""
+    import threading
+    import numpy as np
+    from symmray import AbelianArray, BlockIndex
+    S = _pausing_symmetry()
+    tabs = [{-1: 1, 0: 2, 1: 1}, {0: 1, 1: 2}, {-1: 2, 0: 1, 1: 1}]
+    tabs2 = [dict(tabs[0]), {0: 2, 1: 2}, dict(tabs[2])]            # one block size differs
+    duals = [False, True, False]
+
+    def mk(tb):
+        ixs = [BlockIndex(dict(t), dual=d) for t, d in zip(tb, duals)]
+        full = AbelianArray.from_fill_fn(lambda shape: np.arange(1, int(np.prod(shape)) + 1, dtype='float64').reshape(shape), ixs, charge=0, symmetry=S)
+        return full
+    x1, x2 = mk(tabs), mk(tabs2)
+    groups = ((0, 1), (2,))
+    configure(ac, 0, DEFAULT_MAXSECTORS)
+    try:
+        want1, want2 = attempt(lambda: x1.fuse(*groups)), attempt(lambda: x2.fuse(*groups))
+        out = {}
+        for at in (2, 3, 5):
+            _PAUSE.update(armed=True, at=at, count=0, paused=threading.Event(), resume=threading.Event())
+            res = {}
+
+            def t1():
+                res['T1'] = attempt(lambda: x1.fuse(*groups))
+
+            def t2():
+                _PAUSE['paused'].wait(5.0)
+                res['T2'] = attempt(lambda: x2.fuse(*groups))
+                _PAUSE['resume'].set()
+            th = [threading.Thread(target=t1, name='T1'), threading.Thread(target=t2, name='T2')]
+            for t in th:
+                t.start()
+            for t in th:
+                t.join(20.0)
+            _PAUSE['armed'] = False
+            if res.get('T1') != want1 or res.get('T2') != want2:
+                out = {'oracle': 'forced_info_interleaving', 'parked_at_combine_call': at, 'groups': [list(g) for g in groups],
+                       'tables_T1': [sorted(t.items()) for t in tabs], 'tables_T2': [sorted(t.items()) for t in tabs2], 'duals': duals,
+                       'T1': 'sequential result' if res.get('T1') == want1 else str(res.get('T1'))[:300],
+                       'T2': 'sequential result' if res.get('T2') == want2 else str(res.get('T2'))[:300]}
+                break
+        return out or None
+    finally:
+        _PAUSE['armed'] = False
+        restore(ac)
+
+
 def schedule_cases(ctx, ac, rng, n, tolerant):
     """random complete schedules imposed on the real code vs Model.Cache.run_sched"""
     specs = [mkspec('Z2', [[(0, 2), (1, 1)], [(0, 1), (1, 2)], [(0, 1), (1, 1)]], [False, False, True], 0),
@@ -1014,6 +1090,15 @@ def run(ctx):
             ac.set_default_tensordot_mode(old_default)
         except Exception:
             pass
+    # ---- two threads inside the fuse-info computation at once (one parked mid-way, cache disabled)
+    try:
+        ctx.count(3)
+        fi = forced_info_interleaving(ac, rng)
+        ctx.extra['forced_info_interleaving'] = 'ran'
+        if fi:
+            found.append(('concurrent out-of-place fuse calls do not return what sequential calls return (one thread parked inside the fuse-info computation)', fi))
+    except Exception as e:
+        ctx.note('forced info interleaving: %s: %s' % (type(e).__name__, e))
     # ---- threads: the Coq witness schedule imposed on the real code
     f9 = forced_f9(ac)
     ctx.extra['forced_schedule'] = f9
